@@ -37,10 +37,25 @@ impl CssData {
         Init: FnOnce(&mut Self) -> Result<ScopeRef, Error>,
     {
         if let Some(loaded) = self.modules.get(path) {
+            #[cfg(kaj_rsass_verif)]
+            crate::verif::emit(|| {
+                format!("{{\"ev\":\"CacheHit\",\"name\":{path:?}}}")
+            });
             return Ok(loaded.clone());
         }
+        #[cfg(kaj_rsass_verif)]
+        crate::verif::emit(|| {
+            format!("{{\"ev\":\"InitStart\",\"name\":{path:?}}}")
+        });
         let module = init(self)?;
         self.modules.insert(path.into(), module.clone());
+        #[cfg(kaj_rsass_verif)]
+        crate::verif::emit(|| {
+            format!(
+                "{{\"ev\":\"InitEnd\",\"name\":{path:?},\"n\":{}}}",
+                self.modules.len()
+            )
+        });
         Ok(module)
     }
 
